@@ -212,7 +212,10 @@ function genC16(mods, SPC, index) {
     // (one override in three, where the module has one, is a parser that cannot be printed)
     for (let i = 0; i < n; i++) cfg.overrides[rng.pick(defNames)] = mod.throwing.length && rng.chance(1, 3) ? rng.pick(mod.throwing) : rng.pick(mod.names);
   }
-  const nops = rng.range(1, 12);
+  // one run in sixteen is four times as long (up to 48 calls on one context); decided by the index without a
+  // draw, so that every other index denotes the sequence it denoted before
+  const longRun = fnv32("long-c16|" + ROOT + "|" + index) % 16 === 0;
+  const nops = rng.range(1, 12) * (longRun ? 4 : 1);
   const ops = [];
   // a small working set of parsers, so that repetitions and shared types actually happen
   const work = rng.shuffle([...mod.names]).slice(0, rng.range(1, Math.min(10, mod.names.length)));
@@ -268,6 +271,7 @@ async function execC16(mods, SPC, run) {
     if (!out.violations.some((v) => v.class === cls)) out.violations.push({ property: "C16", class: cls, detail });
   };
   out.pristine = usePristine;
+  out.long = run.ops.length > 12;
   const ctx = mkctx(SPC, mod, cfg);
   const returned = [];
   const held = [];
@@ -1547,6 +1551,7 @@ async function main() {
       if (r.classCalls) for (const [k, v] of Object.entries(r.classCalls)) (agg.classCalls ??= {})[k] = (agg.classCalls[k] || 0) + v;
       if (r.overrides) agg.overrides++;
       if (r.pristine) agg.pristine = (agg.pristine || 0) + 1;
+      if (r.long) agg.longRuns = (agg.longRuns || 0) + 1;
       if (r.crossedBlock) agg.crossed++;
       if (r.extraPadBlock) agg.extraPad++;
       if (prop === "C16") {
@@ -1767,6 +1772,7 @@ async function main() {
             options_object_edited_after_construction: agg.optionEdits || 0,
             runs_with_overrides: agg.overrides,
             runs_on_brand_new_module_instances: agg.pristine || 0,
+            sequences_of_more_than_12_calls: agg.longRuns || 0,
             schema_calls_per_runtype_class: agg.classCalls || {},
             refs_resolved: agg.refs,
             definitions_compared: agg.defs,
